@@ -96,6 +96,9 @@ def setSlice (g : G) (obj a b val : Val) : G × Res Unit :=
           let ia := getClampRealIndex va l.length
           let ib := getClampRealIndex vb l.length
           let ia := if ia > ib then ib else ia
+          -- growing an array beyond 512 elements is refused (the cap of ranges, repeats and concatenations)
+          let off : Int := (l2.length : Int) - (ib - ia)
+          if off > 0 && (l.length : Int) + off > 512 then (g, .err "不能一次性创建过长的数组") else
           ({ g with heap := g.heap.setArr x (l.take ia.toNat ++ l2 ++ l.drop ib.toNat) }, .ok ())
         | _ => (g, .err "val 的类型必须是一个列表"))
      | .int _, _ => (g, .err "第二个值类型错误")
